@@ -104,6 +104,9 @@ def make_scope(E, st, name="scope", cls=None, depth=1):
         "vdeclarations_allowed": SOpt(z3.Bool(fresh_name(name + "_vda_none")),
                                       SBool(z3.Bool(fresh_name(name + "_vda")))),
     }
+    vn = z3.Int(fresh_name(name + "_vars_name_len"))
+    st.assume(vn >= 0)
+    attrs["vars_name"] = st.alloc(ObjCell("SymList", {"__len__": SInt(vn)}))
     return st.alloc(ObjCell(SKind(k), attrs))
 
 
@@ -125,6 +128,8 @@ def make_preproc(E, st, name="pp"):
         "skip_define": SBool(z3.Bool(fresh_name(name + "_skip_define"))),
         "macros": st.alloc(ObjCell("MacroList", {})),
     }
+    for k in ("total_ifs", "total_elifs", "total_elses", "total_ifdefs", "total_ifndefs"):
+        attrs[k] = SInt(z3.Int(fresh_name(name + "_" + k)))
     cls = E.repo.find_class(CONTEXT, "PreProcessors")
     return st.alloc(ObjCell(cls, attrs))
 
